@@ -77,7 +77,7 @@ impl<'a> FciParser<'a> for Fir<'a> {
     const FCI_FORMAT: u8 = 4;
 
     fn parse(data: &'a [u8]) -> Result<Self, RtcpParseError> {
-        if data.len() < 8 {
+        if !data.is_empty() && data.len() < 8 {
             return Err(RtcpParseError::Truncated {
                 expected: 8,
                 actual: data.len(),
